@@ -80,7 +80,7 @@ def run_c20(tier, args):
     cov = dict(
         evaluations=total.runs,
         distinct_nontrivial=len(total.tuples),
-        rule="plans 1..N enumerate every single fault of the fault-free call trace of each tier schema: (call kind, ordinal among calls of that kind, outcome) for mkdir/open-for-write/write+writev/close/open-for-read/read/stat (stat faults are soft); further plans are seeded histories of 1-4 sbeppc runs on one simulated directory with 0-3 faults per run, yanked disk, disk-full-after-B-bytes, persistent environment conditions on the output root (every call incl. stat fails with EACCES/ENAMETOOLONG/ELOOP/EIO), pre-populated output directories (longer/torn/stale/identical files), heap-layout perturbation. distinct = distinct (schema, call kind#ordinal, outcome) fault points that actually fired",
+        rule="plans 1..N enumerate every single fault of the fault-free call trace of each tier schema: (call kind, ordinal among calls of that kind, outcome) for mkdir/open-for-write/write+writev/close/open-for-read/read/stat (stat faults are soft); further plans are seeded histories of 1-4 sbeppc runs on one simulated directory with 0-3 faults per run, yanked disk, disk-full-after-B-bytes, persistent environment conditions on the output root (every call incl. stat fails with EACCES/ENAMETOOLONG/ELOOP/EIO), pre-populated output directories (longer/torn/stale/identical/same-size/read-only files, files where directories go and the reverse, symlinked leaf directories; modification times before / with / after the schema's, now, or in the future), a simulated wall clock moved between runs, heap-layout perturbation, and crash-and-restart: an invocation dies at a seeded call of its trace - process kill (what reached write() stays) or power loss (nothing was synced: per file the new bytes, a prefix, nothing, a zero tail, the old content or no file; empty new directories may vanish) - and the restart on that directory must exit 0 with every file complete and byte-identical to the reference. distinct = distinct (schema, call kind#ordinal, outcome) fault points that actually fired",
         exhaustive_single_fault_enumeration=True,
         enumerated_points=nenum,
         explored_histories=nexplore,
@@ -92,7 +92,7 @@ def run_c20(tier, args):
         runs_with_soft_fault=total.counters.get("runs.with_soft_fault_fired", 0),
         probes={k: v for k, v in total.counters.items() if k.startswith("probe.") or k.startswith("history.")},
         plans_per_hour=int(total.runs / max(wall, 1e-9) * 3600),
-        simulated_time="n/a (no clock in sbeppc); steps = interposed file calls",
+        simulated_time="wall clock owned by the simulator (sbeppc reads none on the unchanged tree); histories cover seconds to five years between runs; steps = interposed file calls",
         regression_plans_replayed=nreg,
         real_components=REAL,
         stub_components=STUB,
